@@ -73,6 +73,9 @@ func init() {
 	key.Curve = elliptic.P256()
 	key.X, key.Y = key.Curve.ScalarBaseMult(d.Bytes())
 
+	for i := range pubKeys {
+		nodesOnline[i], nodesMaint[i] = mkNode(i, false), mkNode(i, true)
+	}
 	engine.VerifPolicerWorldHook = func(_ *engine.StorageEngine, name string, _ []any) ([]any, bool) {
 		if name == "GetBytes" {
 			return []any{[]byte("verif-object-bytes"), nil}, true
@@ -84,6 +87,15 @@ func init() {
 // Node returns the descriptor of universe node i (optionally flagged as under maintenance in the
 // network map).
 func Node(i int, maintenance bool) netmap.NodeInfo {
+	if maintenance {
+		return nodesMaint[i]
+	}
+	return nodesOnline[i]
+}
+
+var nodesOnline, nodesMaint [MaxNodes]netmap.NodeInfo
+
+func mkNode(i int, maintenance bool) netmap.NodeInfo {
 	var n netmap.NodeInfo
 	n.SetPublicKey(pubKeys[i])
 	n.SetNetworkEndpoints("localhost:" + strconv.Itoa(10000+i))
@@ -264,6 +276,21 @@ func (x replRecorder) HandleTask(ctx context.Context, t replicator.Task, res rep
 	x.real.HandleTask(ctx, t, resRecorder{w: x.w, t: len(x.w.Tasks) - 1, next: res})
 }
 
+// farCtx is a never-cancelled context that reports a deadline in the year 2200. The policer and the
+// replicator wrap every remote call in context.WithTimeout(ctx, timeout); with timeouts of ~290 years
+// the parent deadline is the earlier one, so the standard library returns a plain cancel context and
+// arms no runtime timer (pure cost saving: no deadline can fire on any explored path either way).
+type farCtx struct{}
+
+var farDeadline = time.Date(2200, 1, 1, 0, 0, 0, 0, time.UTC)
+
+func (farCtx) Deadline() (time.Time, bool) { return farDeadline, true }
+func (farCtx) Done() <-chan struct{}       { return nil }
+func (farCtx) Err() error                  { return nil }
+func (farCtx) Value(any) any               { return nil }
+
+const farTimeout = time.Duration(1<<63 - 1)
+
 // New builds a world around one real Policer.
 func New() *World {
 	w := &World{partHdr: map[[2]int]object.Object{}}
@@ -302,9 +329,9 @@ func New() *World {
 		replicator.WithRemoteSender(rs),
 		replicator.WithLocalStorage(new(engine.StorageEngine)),
 		replicator.WithLocalNodeKey(net),
-		replicator.WithPutTimeout(time.Hour),
+		replicator.WithPutTimeout(farTimeout),
 	)
-	w.P = policer.VerifNewPolicer(neofsecdsa.Signer(*key), net, localStorage{w}, conns, replRecorder{w, rp}, policer.WithHeadTimeout(time.Hour))
+	w.P = policer.VerifNewPolicer(neofsecdsa.Signer(*key), net, localStorage{w}, conns, replRecorder{w, rp}, policer.WithHeadTimeout(farTimeout))
 	return w
 }
 
@@ -325,5 +352,5 @@ func (w *World) Run(typ object.Type, shards []string, ecRuleIdx, ecPartIdx int) 
 		a.Attributes[1] = strconv.Itoa(ecPartIdx)
 		a.Attributes[2] = string(Parent[:])
 	}
-	w.P.VerifProcessObject(context.Background(), a)
+	w.P.VerifProcessObject(farCtx{}, a)
 }
